@@ -3,7 +3,7 @@
    returns v exactly when (k, v) is visible in the table it loaded -- i.e. the
    writes whose linearization store has happened, and no half-written one. *)
 From CacheV Require Import Base SpecMap XMachine.
-From CacheV.proofs Require Import X_basic X_inv X_c13 X_c16 X_own X_chain X_c04 X_lin.
+From CacheV.proofs Require Import X_basic X_inv X_c13 X_c16 X_own X_chain X_c04 X_lin X_resize.
 From Coq Require Import NArith.
 Local Open Scope nat_scope.
 
@@ -266,6 +266,67 @@ Section Read.
     intros u Eu. destruct (xt_new s HT u _ Eu) as [_ B]. lia.
   Qed.
 
+  (* ---------------- from the call itself ---------------- *)
+
+  (* the state in which thread t has just been handed its next call o *)
+  Definition invoked (s : xstate) (t : nat) (o : xop) (rest : list xop) : xstate :=
+    {| g_tabs := g_tabs s; g_cur := g_cur s; g_resizing := g_resizing s; g_rmu := g_rmu s;
+       g_growths := g_growths s; g_shrinks := g_shrinks s;
+       g_pc := fun t' => if Nat.eq_dec t' t then start_pc o else g_pc s t';
+       g_todo := fun t' => if Nat.eq_dec t' t then rest else g_todo s t' |}.
+
+  Lemma start_not_idle (o : xop) : @start_pc K V o <> PIdle.
+  Proof. destruct o; cbn; try discriminate; destruct lie; discriminate. Qed.
+
+  (* the invocation is part of the thread's first step: running t from the idle state s is
+     running it from [invoked s t o rest], with the invocation event in front *)
+  Lemma invoke_run s t o rest m : g_pc s t = PIdle -> g_todo s t = o :: rest ->
+    step_pc (invoked s t o rest) t (start_pc o) <> None ->
+    xrun s (repeat t (S m)) = (fst (xrun (invoked s t o rest) (repeat t (S m))),
+                               XMachine.XInv t o :: snd (xrun (invoked s t o rest) (repeat t (S m)))).
+  Proof.
+    intros Hp Ht Hne. cbn [repeat XMachine.xrun].
+    assert (E1 : xstep s t = match step_pc (invoked s t o rest) t (start_pc o) with
+                             | Some (s2, ls) => Some (s2, XMachine.XInv t o :: ls)
+                             | None => Some (invoked s t o rest, [XMachine.XInv t o]) end).
+    { unfold XMachine.xstep. rewrite Hp, Ht. reflexivity. }
+    assert (Ep : g_pc (invoked s t o rest) t = start_pc o).
+    { unfold invoked. cbn [g_pc]. destruct (Nat.eq_dec t t); congruence. }
+    assert (E2 : xstep (invoked s t o rest) t = step_pc (invoked s t o rest) t (start_pc o)).
+    { unfold XMachine.xstep. rewrite Ep. pose proof (start_not_idle o) as Hn. destruct (start_pc o); try reflexivity. congruence. }
+    rewrite E1, E2. destruct (step_pc (invoked s t o rest) t (start_pc o)) as [[s2 ls]|]; [|congruence].
+    destruct (XMachine.xrun _ _ _ _ _ _ _ _ _ _ _ _ s2 (repeat t m)) as [s3 ls3]. reflexivity.
+  Qed.
+
+  Lemma invoked_inv s t o rest : XInv s -> XT s -> XC s -> g_pc s t = PIdle ->
+    XInv (invoked s t o rest) /\ XT (invoked s t o rest) /\ XC (invoked s t o rest).
+  Proof.
+    intros HI HT HC Hp.
+    exact (invoke_inv hash idx tag nslots seeds grow_needed nstripes minlen Hminlen Hnslots s t o rest HI HT HC Hp).
+  Qed.
+
+  (* C16, last sentence, from the call: thread t is idle and its next call is Load k; run alone
+     (everybody else frozen wherever they are) it returns what is visible in the current table *)
+  Theorem call_load_visible s t k rest : XInv s -> XT s -> XC s -> g_pc s t = PIdle -> g_todo s t = XLoad k :: rest ->
+    exists m o, m <= rd_bound (invoked s t (XLoad k) rest) (PL_Table k LPlain)
+      /\ g_pc (fst (xrun s (repeat t m))) t = PIdle
+      /\ In (XRes t (res_of o)) (snd (xrun s (repeat t m)))
+      /\ (forall v, o = Some v <-> vis (tab_at s (g_cur s)) k v)
+      /\ g_tabs (fst (xrun s (repeat t m))) = g_tabs s /\ g_cur (fst (xrun s (repeat t m))) = g_cur s
+      /\ (forall t', t' <> t -> g_pc (fst (xrun s (repeat t m))) t' = g_pc s t').
+  Proof.
+    intros HI HT HC Hp Ht.
+    destruct (invoked_inv s t (XLoad k) rest HI HT HC Hp) as [HI1 [HT1 HC1]].
+    set (s1 := invoked s t (XLoad k) rest) in *.
+    assert (Ep : g_pc s1 t = PL_Table k LPlain) by (unfold s1, invoked; cbn [g_pc start_pc]; destruct (Nat.eq_dec t t); congruence).
+    destruct (solo_load_visible s1 t k HI1 HT1 HC1 Ep) as [m [o [Hm [F1 [F2 [F3 [F4 [F5 F6]]]]]]]].
+    destruct m as [|m]; [cbn [repeat XMachine.xrun fst] in F1; rewrite Ep in F1; discriminate|].
+    exists (S m), o. split; [exact Hm|].
+    rewrite (invoke_run s t (XLoad k) rest m Hp Ht); [|cbn; discriminate]. fold s1. cbn [fst snd].
+    split; [exact F1|]. split; [right; exact F2|]. split; [exact F3|]. split; [exact F4|]. split; [exact F5|].
+    intros t' Hne. rewrite (F6 t' Hne). unfold s1, invoked. cbn [g_pc]. destruct (Nat.eq_dec t' t); [contradiction | reflexivity].
+  Qed.
+
 End Read.
 
 (* ---------------- the statement of props/C16.v ---------------- *)
@@ -286,19 +347,20 @@ Section Final.
   Notation xrun := (@xrun K V eqd hash idx tag nslots seeds grow_needed shrink_policy probe nstripes minlen grow_only).
 
   Lemma solo_load_visible_proof :
-    xhyps4 idx nstripes minlen nslots probe -> forall len0 todo sched t k, 0 < len0 ->
+    xhyps4 idx nstripes minlen nslots probe -> forall len0 todo sched t k rest, 0 < len0 ->
     let s := fst (xrun (xinit nslots seeds nstripes len0 todo) sched) in
-    g_pc s t = PL_Table k LPlain ->
-    exists m o, m <= X_c16.rd_bound hash idx tag nslots probe nstripes s (PL_Table k LPlain)
+    g_pc s t = PIdle -> g_todo s t = XLoad k :: rest ->
+    exists m o, m <= X_c16.rd_bound hash idx tag nslots probe nstripes (invoked s t (XLoad k) rest) (PL_Table k LPlain)
       /\ g_pc (fst (xrun s (repeat t m))) t = PIdle
       /\ In (XRes t (res_of o)) (snd (xrun s (repeat t m)))
       /\ (forall v, o = Some v <-> X_lin.vis hash idx (tab_at nslots nstripes s (g_cur s)) k v)
       /\ g_tabs (fst (xrun s (repeat t m))) = g_tabs s /\ g_cur (fst (xrun s (repeat t m))) = g_cur s
       /\ (forall t', t' <> t -> g_pc (fst (xrun s (repeat t m))) t' = g_pc s t').
   Proof.
-    intros [[H1 [H2 H3]] [H4 [H5 H6]]] len0 todo sched t k Hl s Hp.
+    intros [[H1 [H2 H3]] [H4 [H5 H6]]] len0 todo sched t k rest Hl s Hp Ht.
     destruct (reachable_inv4 eqd hash idx tag nslots seeds grow_needed shrink_policy probe nstripes minlen grow_only H1 H2 H3 H4 H5 H6 len0 todo sched Hl)
       as [HI [_ [HT HC]]].
-    eapply (solo_load_visible eqd hash idx tag nslots seeds grow_needed shrink_policy probe nstripes minlen grow_only); eassumption.
+    exact (call_load_visible eqd hash idx tag nslots seeds grow_needed shrink_policy probe nstripes minlen grow_only
+             H1 H2 H3 H4 H5 H6 s t k rest HI HT HC Hp Ht).
   Qed.
 End Final.
